@@ -86,6 +86,11 @@ var catastrophic = []catFam{
 	{`(x+x+)+y`, 0, InputSpec{Unit: "x", Rep: 48}, "many-starts"},
 	{`(?:a*)*b|(?:a*a*a*a*a*a*a*a*c)`, 0, InputSpec{Unit: "a", Rep: 400}, "many-starts"},
 	{`(.*?,){12}P`, 0, InputSpec{Unit: "1,2,3,4,5,", Rep: 12}, "many-starts"},
+	// cheap at every start position, quadratic over all of them: only a deadline that covers the whole
+	// call (not one attempt) fires
+	{`(\w+)\s*=`, 0, InputSpec{Unit: "ab", Rep: 160}, "quadratic-scan"},
+	{`=\s*(\w+)`, oRTL, InputSpec{Unit: "ba", Rep: 160}, "quadratic-scan"},
+	{`(\w+)\s*=`, oI, InputSpec{Unit: "aB", Rep: 170}, "quadratic-scan"},
 }
 
 // Quick (pattern, input) pairs for timed operations that finish well inside any deadline.
